@@ -166,8 +166,8 @@ where
     match state.connection.receive().await {
         Ok(None) => return Err(()),
         Ok(Some(res)) => match res.into_single_frame() {
-            Ok(f) => {
-                if let Some(subsystem) = Subsystem::from_frame(f) {
+            Ok(mut f) => {
+                while let Some(subsystem) = Subsystem::from_frame(&mut f) {
                     debug!(?subsystem, "state change");
                     let _ = state
                         .events
@@ -220,8 +220,8 @@ where
     match response {
         Ok(Some(res)) => {
             match res.into_single_frame() {
-                Ok(f) => {
-                    if let Some(subsystem) = Subsystem::from_frame(f) {
+                Ok(mut f) => {
+                    while let Some(subsystem) = Subsystem::from_frame(&mut f) {
                         debug!(?subsystem, "state change");
                         let _ = state
                             .events
